@@ -2,19 +2,20 @@
 import hashlib, json, os
 from lib import vf, cbuild
 from gen import sercomm as gen_sercomm
+from props import c06_msgb_part as mpart          # second part: msgb.h / msgb.c under the link, osmocon's host side
 
 ID = "C06"
 LEVEL = "proof"
-LEAN_MODULES = ["OsmoVerif.Props.C06"]
-DRIVER_MODULES = ["Sercomm"]
-LEAN_MODEL_MODULES = ["OsmoVerif.Model.Sercomm", "OsmoVerif.Spec.Sercomm", "OsmoVerif.Lemmas.Sercomm"]
+LEAN_MODULES = ["OsmoVerif.Props.C06"] + mpart.LEAN_MODULES
+DRIVER_MODULES = ["Sercomm"] + mpart.DRIVER_MODULES
+LEAN_MODEL_MODULES = ["OsmoVerif.Model.Sercomm", "OsmoVerif.Spec.Sercomm", "OsmoVerif.Lemmas.Sercomm"] + mpart.LEAN_MODEL_MODULES
 ASSUMPTIONS = [
     "theorems are about OsmoVerif.Model.Sercomm: a hand model of sercomm_sendmsg, sercomm_drv_pull (priority dequeue loop, flag insertion, in-place escaping, tx.state), sercomm_register_rx_cb, dispatch_rx_msg, sercomm_drv_rx_char (tailroom check first, five states, un-escaping, re-allocation) and the msgb operations they use; the wire between transmitter and receiver is loss-free and in order (each pulled octet is fed to the receiver)",
     "model tied to the repo by differential execution of the unchanged sercomm.c (+ in-tree msgb.c, talloc.c) built both as osmocon builds it (-DHOST_BUILD, 2048 octet buffer) and as the firmware builds it (256), under clang ASan+UBSan, on whole histories (send / pull / loop / rx, registrations, garbage, out-of-range DLCIs)",
     "HDLC_FLAG/ESCAPE/C_UI, SERCOMM_RX_MSG_SIZE (both builds), queue/handler array sizes, enum rx_state, the escape bit of either side and the room of sercomm_alloc_msgb buffers are regenerated from the tree on every run and used by the theorems",
     "end_to_end_partial excludes two recorded findings: F10 (DLCI 0x00/0x7D/0x7E are not transparent) and F17 (flag-free noise directly after an over-long frame is parsed as a frame); for both the unrestricted statement is kept as a def and its negation is proved with the witness that is replayed on the real code on every run",
     "not modelled: allocation failure of sercomm_alloc_msgb, interrupt/FIQ preemption inside the lock/unlock sections (the model's steps are the atomic sections), the UART; memory safety of the compiled binary is sanitizer evidence, the theorem rx_len_le_cap is about the model's explicit capacity",
-]
+] + mpart.ASSUMPTIONS
 MANIFEST = {
     "text": "Lean 4 theorems over a statement-level model of the transmit and receive state machines of sercomm.c: wire format of a frame and absence of flag/zero octets inside it, delivery of a frame by the receiver, simulation of transmitter+wire+receiver by an abstract priority link for every interleaving of sendmsg/pull/noise and over-long frames anywhere (delivered messages and pulled octets equal the abstract link's), per-DLCI FIFO / exactly-once / lowest-DLCI-first / drain of the abstract link, bounded loss after an over-long frame, receive-buffer bound for every octet stream; constants regenerated from the tree; the model is compared with the unchanged C under ASan/UBSan on structured histories (escape-dense payloads, every octet value at every position, lengths around the buffer size, noise, over-long frames, many DLCIs, partial pulls); an independent Python oracle states the property on the real code",
     "note": "trusted: Lean kernel (+propext, Classical.choice, Quot.sound), gen/sercomm.py, the differential harness harness/c/c06_harness.c (osmo_panic and uart_irq_enable stubs only), shim asm/system.h for the target flavour; recorded findings F10, F17 delimit the _partial theorems",
@@ -36,6 +37,7 @@ VERB = {"host": "sc.run", "target": "sc.runt"}
 
 def gen(run):
     run.consts = gen_sercomm.generate(run)
+    mpart.gen(run)
 
 
 def caps(run):
@@ -453,6 +455,7 @@ def correspond(run, corr):
                 corr.disagreements.append({"request": l[:1500], "first_difference_at": i,
                                            "impl": a[max(0, i - 80):i + 200], "model": b[max(0, i - 80):i + 200]})
         run.c06_corr_cases = getattr(run, "c06_corr_cases", []) + [(c, l, a) for (l, _, c), a in zip(rq, impl) if c]
+        run.c06_first_part = getattr(run, "c06_first_part", []) + [(flavour, lines, impl)]
         for (l, bucket, _), a in zip(rq, impl):
             corr.count(hashlib.md5(l.encode()).hexdigest()[:16], "%s:%s" % (flavour, bucket))
             pa = parse_answer(a)
@@ -468,6 +471,7 @@ def correspond(run, corr):
                  "before flag, unregistered and out-of-table addresses) in random chunking; out-of-property mixes (transmitter-only pulls, "
                  "late/duplicate registration, echo DLCI, queue index beyond the array); the F10 and F17 histories. All are non-trivial.")
     corr.samples = samples
+    mpart.correspond(run, corr, getattr(run, "c06_first_part", []))
 
 
 # ----------------------------------------------------------------------------
@@ -678,6 +682,7 @@ def search(run, corr, deep):
                     continue
             found += bool(run.report_witness(w))
     corr.distribution["oracle: histories judged on the real code"] = total
+    found += mpart.oracle(run, corr, deep)
     return found
 
 
@@ -689,6 +694,11 @@ def replay(run, path):
         w = v.get("witness")
         if not w:
             print("replay: no concrete input recorded (%s)" % json.dumps(v.get("broken"))[:600])
+            continue
+        if w.get("part") == "msgb":
+            still, text = mpart.replay(run, w)
+            print(text)
+            bad += bool(still)
             continue
         h = w["history"]
         link = Link(h["cap"])
